@@ -19,6 +19,7 @@ RULE = (
     "sets and block shapes, device list length 1 or 2 (duplicated CPU device) dividing B); unique sample ids. "
     "Non-trivial: random key and >=2 co-batched multi-images or >=2 types; distinct by (L,B,key kind,layout,devices)."
 )
+RULE += " Also: L up to 1200, typed PRNG keys, the same object co-batched twice, NumPy and jax blocks mixed, and the consumer ml.map_plus_loss_in_batches / map_loss_in_batches on unique ids."
 ASSUMPTIONS = ["one CPU device in the sandbox: a 2-device list is the same device twice (only its length is used by reshape_pmap)"]
 ANCHORS = ["ginjax.ml.training:get_batches", "ginjax.geometric.multi_image:MultiImage.get_subset", "ginjax.geometric.multi_image:MultiImage.reshape_pmap"]
 MIN_NONTRIVIAL = {"quick": 60, "thorough": 2500}
